@@ -112,7 +112,7 @@ pub struct Choice<'a> {
 }
 
 pub trait Fates {
-    fn wants_state(&self) -> bool {
+    fn wants_state(&self, _idx: usize) -> bool {
         false
     }
     /// `None` aborts the execution (used by the DFS to prune).
@@ -300,7 +300,7 @@ impl Wire {
         }
         let clock = Rc::new(RoundClock::default());
         let exec = Exec::default();
-        let netstat_ip = if cfg.loopback { [ips[0], ips[0]] } else { ips };
+        let netstat_ip = if cfg.loopback { [Some(ips[0]), Some(ips[0])] } else { [Some(ips[0]), Some(ips[1])] };
         let sh = Rc::new(Shared {
             hist: RefCell::new(Hist::default()),
             clock,
@@ -674,7 +674,7 @@ impl Wire {
             let idx = rec.idx;
             self.pkts.push(rec);
             self.raw.push(Some(p.clone()));
-            let state = if fates.wants_state() {
+            let state = if fates.wants_state(idx) {
                 Some(self.state_hash(&now, &out[j..n_out]))
             } else {
                 None
@@ -816,7 +816,10 @@ impl Wire {
             if d.read_pause > 0 {
                 unit = unit.min(d.rbufs.iter().copied().min().unwrap_or(1).max(1));
             }
-            total += (d.total.div_ceil(unit) as u64 + 1) * (1 + d.read_pause as u64) + d.write_delay as u64;
+            let writes = d.total.div_ceil(d.wchunks.iter().copied().min().unwrap_or(1).max(1)) as u64 + 1;
+            total += (d.total.div_ceil(unit) as u64 + 1) * (1 + d.read_pause as u64)
+                + d.write_delay as u64
+                + writes * d.write_pause as u64;
         }
         total
     }
